@@ -317,3 +317,191 @@ def shallow_copies(chk, P, E, fname, unit, src_params, allowed, rule="R-NOALIAS"
         else:
             chk.inst(rule, f, "store:%s#%d" % (fld, n), not shallow, "pointer field %s of the copy %s" % (fld, "receives a pointer into the source instance (%s): the two topologies would share storage" % src(a[2]) if shallow else "gets fresh/own memory"), loc=f.loc(x))
     return n
+
+
+# --------------------------------------------------------------------------------------------------------------------------
+# R-SHALLOWELEM: every element of an array copied in bulk gets its pointer fields re-assigned in every iteration
+# --------------------------------------------------------------------------------------------------------------------------
+class _ElemFlow(Flow):
+    """must-facts (binding key, field): the pointer field of the element the key is bound to was stored since the binding"""
+
+    def __init__(self, f, dests, loops_of_key, headers):
+        Flow.__init__(self, f)
+        self.dests = dests            # lv of a bulk-copied array -> record name
+        self.loops_of_key = loops_of_key   # key -> loop header whose iterations scope the key's facts
+        self.headers = headers        # set of loop header block ids
+        self.outb = {}
+
+    def init(self):
+        return frozenset()
+
+    def join(self, a, b):
+        return a & b
+
+    def _elem_key(self, base, arrow):
+        """which element does `base` (the object expression of a member access) denote?"""
+        b = strip(base)
+        if b is None:
+            return None
+        if arrow and b["k"] == "Ref" and b["n"] in self.loops_of_key:
+            return b["n"]
+        if not arrow and b["k"] == "Sub" and lv(b["c"][0]) in self.dests:
+            return lv(b["c"][0]) + "[]"
+        return None
+
+    def _stores(self, n):
+        """(key, field) pairs stored by element n: direct assignment of a member, or its address handed to a call"""
+        out = []
+        a = assigned(n)
+        tg = []
+        if a:
+            tg.append(strip(a[0]))
+        if n["k"] == "Call":
+            for z in args(n):
+                z2 = strip(z)
+                if z2 is not None and z2["k"] == "Unary" and z2["op"] == "&":
+                    tg.append(strip(z2["c"][0]))
+        for y in tg:
+            # the outermost record member on the access path that belongs to the element
+            chain = []
+            while y is not None and y["k"] in ("Member", "Sub"):
+                chain.append(y)
+                y = strip(y["c"][0])
+            for m in chain:
+                if m["k"] == "Member":
+                    k = self._elem_key(m["c"][0], m.get("arrow"))
+                    if k:
+                        out.append((k, m["f"]))
+        return out
+
+    def elem(self, st, n):
+        a = assigned(n)
+        if a and strip(a[0])["k"] == "Ref" and strip(a[0])["n"] in self.loops_of_key:
+            st = frozenset(x for x in st if x[0] != strip(a[0])["n"])
+        if n["k"] == "DeclStmt":
+            for v in n["c"]:
+                if v["n"] in self.loops_of_key:
+                    st = frozenset(x for x in st if x[0] != v["n"])
+        new = self._stores(n)
+        if new:
+            st = st | frozenset(new)
+        return st
+
+    def edge(self, st, blk, cond, truth):
+        if blk["id"] in self.headers:
+            keys = set(k for k, h in self.loops_of_key.items() if h == blk["id"])
+            if keys:
+                st = frozenset(x for x in st if x[0] not in keys)
+        return st
+
+    def out_state(self, blk, st):
+        self.outb[blk["id"]] = st
+
+
+def _natural_loops(f):
+    """-> {header block: (set of back-edge source blocks, set of body blocks)}"""
+    dom = f.dominators()
+    loops = {}
+    for b, blk in f.blocks.items():
+        if b not in dom:
+            continue
+        for s in blk["s"]:
+            if s is not None and s in dom[b]:
+                L = loops.setdefault(s, (set(), set([s])))
+                L[0].add(b)
+                stack = [b]
+                while stack:
+                    x = stack.pop()
+                    if x in L[1]:
+                        continue
+                    L[1].add(x)
+                    stack.extend(p for p in f.preds.get(x, ()) if p in dom)
+    return loops
+
+
+def shallow_elements(chk, P, fname, unit, rule="R-SHALLOWELEM"):
+    """memcpy(D, S, n * sizeof(*D)) copies an array of records with pointer fields verbatim; the loop that then walks the elements
+    (through `E = &D[i]` or `D[i].f`) must store every pointer field of the element on every path that finishes an iteration normally
+    (`continue` included): an element left as copied shares the original's allocation, and both instances release it"""
+    f = P.need_func(fname, unit)
+    dests = {}
+    for c in f.calls(("memcpy",)):
+        a = args(c)
+        d = strip(a[0])
+        t = f.type_of(d)
+        if not t or not t.get("prec") or lv(d) is None:
+            continue
+        rec = f.unit.records.get(t["prec"])
+        if rec is None:
+            continue
+        ptrs = [fl["n"] for fl in rec["fields"] if f.unit.types[fl["t"]].get("ptr") and not f.unit.types[fl["t"]].get("fp")]
+        if ptrs:
+            dests[lv(d)] = (t["prec"], ptrs, c)
+    if not dests:
+        return 0
+    loops = _natural_loops(f)
+    def innermost(block):
+        best = None
+        for h, (srcs, body) in loops.items():
+            if block in body and (best is None or len(body) < len(loops[best][1])):
+                best = h
+        return best
+    # bindings: aliases `E = &D[i]` and direct element accesses `D[i].f`
+    bind = {}      # key -> (dest lv, header)
+    for x in f.walk():
+        tgt = rhs = None
+        a = assigned(x)
+        if a and a[1] == "=" and a[2] is not None and strip(a[0])["k"] == "Ref":
+            tgt, rhs = strip(a[0])["n"], strip(a[2])
+        elif x["k"] == "Var" and x.get("c") and x["c"][0] is not None:
+            tgt, rhs = x["n"], strip(x["c"][0])
+        if tgt and rhs is not None and rhs["k"] == "Unary" and rhs["op"] == "&":
+            s = strip(rhs["c"][0])
+            if s is not None and s["k"] == "Sub" and lv(s["c"][0]) in dests:
+                y = x["id"]
+                while y is not None and y not in f.elem_block:
+                    y = f.parent.get(y)
+                # a Var sits inside its (possibly synthetic) DeclStmt element
+                if y is None:
+                    for e, (bb, _i) in f.elem_block.items():
+                        nd = f.nodes.get(e)
+                        if nd is not None and nd["k"] == "DeclStmt" and any(v.get("id") == x["id"] for v in nd["c"]):
+                            y = e
+                            break
+                if y is None:
+                    continue
+                h = innermost(f.elem_block[y][0])
+                if h is not None:
+                    bind[tgt] = (lv(s["c"][0]), h)
+        if x["k"] == "Member" and not x.get("arrow"):
+            b = strip(x["c"][0])
+            if b is not None and b["k"] == "Sub" and lv(b["c"][0]) in dests:
+                y = x["id"]
+                while y is not None and y not in f.elem_block:
+                    y = f.parent.get(y)
+                if y is None:
+                    continue
+                h = innermost(f.elem_block[y][0])
+                key = lv(b["c"][0]) + "[]"
+                if h is not None and (key not in bind or len(loops[h][1]) > len(loops[bind[key][1]][1])):
+                    bind[key] = (lv(b["c"][0]), h)      # the outermost loop that walks the array directly
+    n = 0
+    if not bind:
+        return 0
+    fl = _ElemFlow(f, set(dests), {k: h for k, (_d, h) in bind.items()}, set(loops)).run()
+    for key in sorted(bind):
+        d, h = bind[key]
+        recname, ptrs, c = dests[d]
+        for p in ptrs:
+            n += 1
+            missing = [b for b in loops[h][0] if b in fl.outb and (key, p) not in fl.outb[b]]
+            ok = not missing
+            where = ""
+            if missing:
+                blk = f.blocks[missing[0]]
+                where = f.loc(f.nodes[blk["e"][0]]) if blk["e"] else f.name
+            chk.inst(rule, f, "elem:%s->%s" % (key, p), ok,
+                     "memcpy(%s, ...) copies the %s elements verbatim: every iteration of the loop that walks them through `%s` stores the pointer field `%s` before it ends%s"
+                     % (d, recname, key, p, "" if ok else " -- but an iteration can end (near %s) with the field still holding the source's pointer: both instances own, and release, the same allocation" % where),
+                     loc=f.loc(c))
+    return n
